@@ -422,10 +422,16 @@ def run_case(idx, rng, P, rep):
                 op = 'assign_new'
                 # through the object that owns the Parameter being watched (an instance-level set on a
                 # class-level history would append to that instance's private copy)
+                value = x
+                if kind == 'ListSelector':
+                    # (a list may name a new object more than once, next to known ones: it joins the objects once)
+                    value = [x] if rng.random() < 0.6 or not model_objs else [x, rng.choice(model_objs), x]
+                    if len(value) > 1:
+                        rep.count('new_object_named_twice_in_one_list')
                 if level == 'instance':
-                    inst.sel = [x] if kind == 'ListSelector' else x
+                    inst.sel = value
                 else:
-                    cls.sel = [x] if kind == 'ListSelector' else x
+                    cls.sel = value
                 model_objs.append(x)
                 proxy[0] = None
                 rep.count('auto_appended')
